@@ -12,7 +12,7 @@ import tlcrun  # noqa: E402
 NPROC = int(os.environ.get("VERIF_NPROC", "16"))
 
 MC_INVARIANTS = ["Inv_C01_ParentChild", "Inv_C01_PinWire", "Inv_C02_RefSets", "Inv_C02_OuterPins",
-                 "Inv_C02_Dropped", "Inv_C10_Unique", "Inv_C10_LegalIds", "Inv_OracleSane"]
+                 "Inv_C02_Dropped", "Inv_C10_Unique", "Inv_C10_LegalIds", "Inv_OracleSane", "Inv_C08_Model", "Inv_C09_Model"]
 
 
 def mc_cfg(scope, depth, emit, module_consts=""):
@@ -90,6 +90,23 @@ def _run_group(harness, init, hist, cands, listeners):
     recs = []
     errors = []
     for c in sorted(cands, key=_call_key):
+        if c["op"] == "seq":      # a pipeline of calls on the same objects: a little chain inside the star
+            prev = 0
+            s_prev = s0
+            for sub in c["calls"]:
+                try:
+                    out, exc = harness.execute(reg, sub)
+                except harness.HarnessError:
+                    break
+                s1 = harness.project(reg)
+                rec = {"t": "call", "call": sub, "out": out, "exc": exc, "same": s1 == s_prev, "state": s1}
+                if prev:
+                    rec["pre_rel"] = prev
+                recs.append(rec)
+                prev = len(recs)
+                s_prev = s1
+            reg = harness.build(init + hist, listeners)
+            continue
         if reg.mirror:
             reg.mirror.begin_call()
         try:
@@ -203,6 +220,7 @@ def replay_slice(args):
                         pass
             n += 1
             base = n
+            absidx = {}
             f.write(json.dumps(head, separators=(",", ":")) + "\n")
             st["groups"] += 1
             s0_key = json.dumps(head["state"], sort_keys=True)
@@ -210,7 +228,9 @@ def replay_slice(args):
                 if rec is None:
                     st["unbuildable"] += 1
                     continue
-                rec["pre"] = base + rec.pop("pre_rel") if "pre_rel" in rec else base
+                rel = rec.pop("pre_rel", 0)
+                rec["pre"] = absidx[rel] if rel else base
+                absidx[ci + 1] = n + 1
                 if others:
                     agree = True
                     for o in others:
